@@ -6,7 +6,7 @@ eviction order probed behaviourally (fresh inserts) at the end of every history
 and on every copy().
 """
 from checks import common
-from checks.cachemodel import Model, on_miss_fn
+from checks.cachemodel import Model, on_miss_fn, prefetch_pairs
 from checks.common import outcome
 from checks.common.history import Failure, explore
 
@@ -15,7 +15,7 @@ LEVEL = 'exploration'
 SHARDS = {'quick': 4, 'thorough': 16}
 BUDGET_S = {'quick': 40, 'thorough': 420}
 RULE = ('seeded random histories (1-80 ops; to 400 thorough) of dict-API operations on LRI and LRU, '
-        'max_size 1-5 and 128, with/without a recording on_miss, optional initial values; after every '
+        'max_size 1-5 and 128, with/without a recording on_miss (pure, or one that itself stores the requested key and a neighbour into the cache), optional initial values; after every '
         'op contents, len, membership, the three counters and the on_miss log are compared with a '
         'sequential reference cache; eviction order is probed by fresh inserts at the end of every '
         'history and on every copy(); distinct = distinct (class, max_size, recency order) model states '
@@ -66,10 +66,12 @@ class Run(object):
         self.max_size = cfg['max_size']
         self.log = []
         self.has_on_miss = bool(cfg.get('on_miss'))
-        self.model = Model(self.max_size, cfg['cls'] == 'LRU', self.has_on_miss)
+        self.model = Model(self.max_size, cfg['cls'] == 'LRU', cfg.get('on_miss'))
 
         def on_miss(key):
             self.log.append(key)
+            if cfg.get('on_miss') == 'prefetch':
+                self.c.update(prefetch_pairs(key))   # a loader that stores a whole page itself
             return on_miss_fn(key)
         kw = {}
         if self.has_on_miss:
@@ -273,7 +275,8 @@ class Check(object):
 
     def gen(self, r, ctx):
         ms = r.choice([1, 1, 2, 2, 3, 3, 4, 5, 128])
-        cfg = {'cls': r.choice(['LRI', 'LRU']), 'max_size': ms, 'on_miss': r.random() < 0.35}
+        cfg = {'cls': r.choice(['LRI', 'LRU']), 'max_size': ms,
+               'on_miss': r.choice([False, False, False, True, True, 'prefetch'])}
         pool = pool_for(cfg)
         shape = r.choice(['none', 'none', 'dict', 'pairs', 'iter'])
         cfg['values_shape'] = shape
